@@ -273,7 +273,10 @@ pub fn run_tests(
 
     if verbose && !all_fixtures.is_empty() {
         println!("Discovered {} fixture(s):", all_fixtures.len());
-        for (name, fixture) in &all_fixtures {
+        // Sorted by name: `all_fixtures` is a HashMap and its iteration order differs between processes.
+        let mut sorted_fixtures: Vec<_> = all_fixtures.iter().collect();
+        sorted_fixtures.sort_by(|a, b| a.0.cmp(b.0));
+        for (name, fixture) in sorted_fixtures {
             let scope_str = match fixture.scope {
                 FixtureScope::Function => "function",
                 FixtureScope::Module => "module",
@@ -705,11 +708,13 @@ fn expr_has_yield(expr: &crate::frontend::ast::Expr) -> bool {
 }
 
 fn get_autouse_fixtures(fixtures: &HashMap<String, FixtureInfo>, scope: FixtureScope) -> Vec<String> {
-    fixtures
+    let mut names: Vec<String> = fixtures
         .values()
         .filter(|f| f.autouse && f.scope == scope)
         .map(|f| f.name.clone())
-        .collect()
+        .collect();
+    names.sort();
+    names
 }
 
 fn extract_test_markers(
